@@ -795,3 +795,8 @@ add("C05", "benign: forward peek bound check against the size field", "sqlglot/p
 add("C15", "benign: helper generator prunes through an explicit set difference variable", "sqlglot/generators/athena.py",
     "        if k not in generator.ALL_JSON_PATH_PARTS - TrinoGenerator.SUPPORTED_JSON_PATH_PARTS\n",
     "        if k not in (generator.ALL_JSON_PATH_PARTS - TrinoGenerator.SUPPORTED_JSON_PATH_PARTS)\n", "silent", 0)
+
+add("C15", "revert: dialect extends the sets of a shallow copy of the global coercion table in place", "sqlglot/dialects/bigquery.py",
+    "        **deepcopy(TypeAnnotator.COERCES_TO),", "        **TypeAnnotator.COERCES_TO,", "C15.c")
+add("C15", "benign: element rebound to a new set instead of updated in place", "sqlglot/dialects/bigquery.py",
+    "    COERCES_TO[exp.DType.DECIMAL] |= {exp.DType.BIGDECIMAL}", "    COERCES_TO[exp.DType.DECIMAL] = COERCES_TO[exp.DType.DECIMAL] | {exp.DType.BIGDECIMAL}", "silent", 0)
